@@ -73,6 +73,7 @@ def run(run_, tier):
     from .integ_model import install_std
     it3 = Interp(run_)
     install_std(it3)
+    run_.replay_for("states.", lambda w: {"script": "c09_cache.py", "args": [json.dumps(w or {})]})
     c09.protocol(run_, it3, "C09")
     try:
         from . import symla_systems
